@@ -1948,3 +1948,100 @@ def _call_trait(eng, st, fr, t, args, dest, target):
         return ('app', 'call', tuple(eng.purify(st, a) for a in args))
     eng.call_callable(st, f, list(tup[1]), ('wrap', dest, target, lambda x: x))
     return DEFER
+
+
+# ---------------------------------------------------------------------------------------------------------------
+# text: predicates of constant strings and characters fold to constants (used to evaluate a text route on witness spellings);
+# on anything that is not a constant they stay uninterpreted
+def _const_str(eng, st, v):
+    v = eng.deref_arg(st, v)
+    if is_const(v) and isinstance(cval(v), str):
+        return cval(v)
+    return None
+
+
+def _const_char(eng, st, v):
+    v = eng.deref_arg(st, v)
+    if is_const(v) and v[1] == 'char' and isinstance(cval(v), int):
+        return chr(cval(v))
+    return None
+
+
+@model('core::str::<impl str>::chars', 'std::str::<impl str>::chars')
+def _str_chars(eng, st, fr, t, args, dest, target):
+    s = _const_str(eng, st, args[0])
+    if s is None:
+        return _opaque(eng, st, t, args)
+    return ('iter', 'val', ('vec', tuple(C('char', ord(ch)) for ch in s)))
+
+
+@model('core::str::<impl str>::bytes', 'std::str::<impl str>::bytes')
+def _str_bytes(eng, st, fr, t, args, dest, target):
+    s = _const_str(eng, st, args[0])
+    if s is None:
+        return _opaque(eng, st, t, args)
+    return ('iter', 'val', ('vec', tuple(C('u8', b) for b in s.encode())))
+
+
+_CHAR_PREDS = {
+    'is_ascii_alphabetic': lambda c: c.isascii() and c.isalpha(),
+    'is_alphabetic': lambda c: c.isalpha(),
+    'is_ascii_digit': lambda c: c.isascii() and c.isdigit(),
+    'is_numeric': lambda c: c.isnumeric(),
+    'is_ascii_alphanumeric': lambda c: c.isascii() and c.isalnum(),
+    'is_alphanumeric': lambda c: c.isalnum(),
+    'is_whitespace': lambda c: c.isspace(),
+    'is_ascii_whitespace': lambda c: c in ' \t\n\x0c\r',
+    'is_ascii_punctuation': lambda c: c.isascii() and (33 <= ord(c) <= 47 or 58 <= ord(c) <= 64 or 91 <= ord(c) <= 96 or 123 <= ord(c) <= 126),
+    'is_ascii_uppercase': lambda c: c.isascii() and c.isupper(),
+    'is_ascii_lowercase': lambda c: c.isascii() and c.islower(),
+    'is_ascii': lambda c: c.isascii(),
+    'is_ascii_hexdigit': lambda c: c in '0123456789abcdefABCDEF',
+}
+
+
+def _char_pred(f):
+    def m(eng, st, fr, t, args, dest, target):
+        c = _const_char(eng, st, args[0])
+        if c is None:
+            return _opaque(eng, st, t, args)
+        return cbool(bool(f(c)))
+    return m
+
+
+for _n, _f in _CHAR_PREDS.items():
+    MODELS[f'core::char::methods::<impl char>::{_n}'] = _char_pred(_f)
+    MODELS[f'std::char::methods::<impl char>::{_n}'] = _char_pred(_f)
+
+
+def _str_pred(f, nargs=1):
+    def m(eng, st, fr, t, args, dest, target):
+        s = _const_str(eng, st, args[0])
+        if s is None:
+            return _opaque(eng, st, t, args)
+        if nargs == 1:
+            return f(s)
+        p = _const_str(eng, st, args[1])
+        if p is None:
+            p = _const_char(eng, st, args[1])
+        if p is None:
+            return _opaque(eng, st, t, args)
+        return f(s, p)
+    return m
+
+
+for _pre in ('core::str::<impl str>::', 'std::str::<impl str>::'):
+    MODELS[_pre + 'is_empty'] = _str_pred(lambda s: cbool(s == ''))
+    MODELS[_pre + 'len'] = _str_pred(lambda s: C('usize', len(s.encode())))
+    MODELS[_pre + 'trim'] = _str_pred(lambda s: C('&str', s.strip()))
+    MODELS[_pre + 'trim_start'] = _str_pred(lambda s: C('&str', s.lstrip()))
+    MODELS[_pre + 'trim_end'] = _str_pred(lambda s: C('&str', s.rstrip()))
+    MODELS[_pre + 'is_ascii'] = _str_pred(lambda s: cbool(s.isascii()))
+    MODELS[_pre + 'contains'] = _str_pred(lambda s, p: cbool(p in s), 2)
+    MODELS[_pre + 'starts_with'] = _str_pred(lambda s, p: cbool(s.startswith(p)), 2)
+    MODELS[_pre + 'ends_with'] = _str_pred(lambda s, p: cbool(s.endswith(p)), 2)
+
+
+@model('std::hint::must_use', 'core::hint::must_use')
+def _must_use(eng, st, fr, t, args, dest, target):
+    return args[0]
